@@ -50,6 +50,15 @@ def _sides(key):
     return np.where(np.abs(x - x.min()) < 1e-9)[0], np.where(np.abs(x - x.max()) < 1e-9)[0]
 
 
+def _take(x):
+    """copy of a queried array for the harness; the array handed out belongs to the caller, who may edit it in place (unit conversion,
+    normalisation): the harness overwrites it, which must not reach the simulation or its stored iterations"""
+    out = np.array(x, dtype=float)
+    if isinstance(x, np.ndarray) and x.flags.writeable and x.size:
+        x[...] = -7.77
+    return out
+
+
 class Scn:
     name = ""
     mesh0, mesh1 = "Q", "T"
@@ -82,17 +91,17 @@ class Scn:
     def fields(self, simu):
         out = {}
         for pt in simu.Get_problemTypes():
-            out[f"{pt}.u"] = np.array(simu._Get_u_n(pt), dtype=float)
+            out[f"{pt}.u"] = _take(simu._Get_u_n(pt))
             if self.dynamic or hasattr(self, "to_dynamic"):
-                out[f"{pt}.v"] = np.array(simu._Get_v_n(pt), dtype=float)
-                out[f"{pt}.a"] = np.array(simu._Get_a_n(pt), dtype=float)
+                out[f"{pt}.v"] = _take(simu._Get_v_n(pt))
+                out[f"{pt}.a"] = _take(simu._Get_a_n(pt))
         return out
 
     def named(self, simu):
         out = {}
         for nm in self.results:
             r = simu.Result(nm, nodeValues=False)
-            out[nm] = np.atleast_1d(np.array(r, dtype=float))
+            out[nm] = np.atleast_1d(_take(r))
         return out
 
 
@@ -144,10 +153,10 @@ class ThermalStatic(Scn):
 
     def fields(self, simu):
         pt = simu.problemType
-        return {f"{pt}.u": np.array(simu._Get_u_n(pt), dtype=float), f"{pt}.v": np.array(simu._Get_v_n(pt), dtype=float)}
+        return {f"{pt}.u": _take(simu._Get_u_n(pt)), f"{pt}.v": _take(simu._Get_v_n(pt))}
 
     def named(self, simu):
-        return {nm: np.atleast_1d(np.array(simu.Result(nm), dtype=float)) for nm in self.results}
+        return {nm: np.atleast_1d(_take(simu.Result(nm))) for nm in self.results}
 
 
 class ThermalParabolic(Scn):
@@ -166,10 +175,10 @@ class ThermalParabolic(Scn):
 
     def fields(self, simu):
         pt = simu.problemType
-        return {f"{pt}.u": np.array(simu._Get_u_n(pt), dtype=float), f"{pt}.v": np.array(simu._Get_v_n(pt), dtype=float)}
+        return {f"{pt}.u": _take(simu._Get_u_n(pt)), f"{pt}.v": _take(simu._Get_v_n(pt))}
 
     def named(self, simu):
-        return {nm: np.atleast_1d(np.array(simu.Result(nm), dtype=float)) for nm in self.results}
+        return {nm: np.atleast_1d(_take(simu.Result(nm))) for nm in self.results}
 
 
 class BeamStatic(Scn):
@@ -213,7 +222,7 @@ class BeamStatic(Scn):
         simu.add_neumann(hi, [self.levels[level]], ["y"])
 
     def named(self, simu):
-        return {nm: np.atleast_1d(np.array(simu.Result(nm), dtype=float)) for nm in self.results}
+        return {nm: np.atleast_1d(_take(simu.Result(nm))) for nm in self.results}
 
 
 class BeamNewmark(BeamStatic):
@@ -247,11 +256,11 @@ class PhaseFieldHistory(Scn):
         simu.add_dirichlet(hi, [self.levels[level]], ["x"])
 
     def named(self, simu):
-        out = {"psiP": np.atleast_1d(np.array(simu.Result("psiP", nodeValues=False), dtype=float)),
-               "damage": np.atleast_1d(np.array(simu.Result("damage"), dtype=float)),
+        out = {"psiP": np.atleast_1d(_take(simu.Result("psiP", nodeValues=False))),
+               "damage": np.atleast_1d(_take(simu.Result("damage"))),
                # matrix-based scalar results (use the assembled K_u(d) / K_d of the current state)
-               "Wdef": np.atleast_1d(np.array(simu.Result("Wdef"), dtype=float)),
-               "Psi_Crack": np.atleast_1d(np.array(simu.Result("Psi_Crack"), dtype=float))}
+               "Wdef": np.atleast_1d(_take(simu.Result("Wdef"))),
+               "Psi_Crack": np.atleast_1d(_take(simu.Result("Psi_Crack")))}
         return out
 
 
@@ -261,9 +270,9 @@ class PhaseFieldHistoryDamage(PhaseFieldHistory):
     results = ["damage"]
 
     def named(self, simu):
-        return {"damage": np.atleast_1d(np.array(simu.Result("damage"), dtype=float)),
-                "Wdef": np.atleast_1d(np.array(simu.Result("Wdef"), dtype=float)),
-                "Psi_Crack": np.atleast_1d(np.array(simu.Result("Psi_Crack"), dtype=float))}
+        return {"damage": np.atleast_1d(_take(simu.Result("damage"))),
+                "Wdef": np.atleast_1d(_take(simu.Result("Wdef"))),
+                "Psi_Crack": np.atleast_1d(_take(simu.Result("Psi_Crack")))}
 
 
 class InElasticScn(Scn):
@@ -282,9 +291,9 @@ class InElasticScn(Scn):
         return simu
 
     def named(self, simu):
-        out = {"Svm": np.atleast_1d(np.array(simu.Result("Svm", nodeValues=False), dtype=float))}
+        out = {"Svm": np.atleast_1d(_take(simu.Result("Svm", nodeValues=False)))}
         for n in self._names:
-            out[n] = np.atleast_1d(np.array(simu.Result(n, nodeValues=False), dtype=float))
+            out[n] = np.atleast_1d(_take(simu.Result(n, nodeValues=False)))
         return out
 
 
@@ -307,7 +316,7 @@ class HyperScn(Scn):
 
     def named(self, simu):
         names = [n for n in ("Svm", "W") if n in simu.Results_Available()]
-        return {n: np.atleast_1d(np.array(simu.Result(n, nodeValues=False), dtype=float)) for n in names}
+        return {n: np.atleast_1d(_take(simu.Result(n, nodeValues=False))) for n in names}
 
 
 class WeakFormScn(Scn):
@@ -323,7 +332,7 @@ class WeakFormScn(Scn):
         return Simulations.WeakForms(mesh, Models.WeakForms(field, computeK=k))
 
     def named(self, simu):
-        return {"u": np.atleast_1d(np.array(simu.Result("u"), dtype=float))}
+        return {"u": np.atleast_1d(_take(simu.Result("u")))}
 
     # the weak-form model owns the Field, which is bound to the element group of the mesh it was created on:
     # replacing the mesh of such a simulation requires a new model and is not an operation of this scenario
@@ -360,10 +369,10 @@ class WeakFormParabolic(WeakFormScn):
 
     def fields(self, simu):
         pt = simu.problemType
-        return {f"{pt}.u": np.array(simu._Get_u_n(pt), dtype=float), f"{pt}.v": np.array(simu._Get_v_n(pt), dtype=float)}
+        return {f"{pt}.u": _take(simu._Get_u_n(pt)), f"{pt}.v": _take(simu._Get_v_n(pt))}
 
     def named(self, simu):
-        return {nm: np.atleast_1d(np.array(simu.Result(nm), dtype=float)) for nm in self.results}
+        return {nm: np.atleast_1d(_take(simu.Result(nm))) for nm in self.results}
 
 
 class WeakFormHyperbolic(WeakFormParabolic):
@@ -375,8 +384,7 @@ class WeakFormHyperbolic(WeakFormParabolic):
 
     def fields(self, simu):
         pt = simu.problemType
-        return {f"{pt}.u": np.array(simu._Get_u_n(pt), dtype=float), f"{pt}.v": np.array(simu._Get_v_n(pt), dtype=float),
-                f"{pt}.a": np.array(simu._Get_a_n(pt), dtype=float)}
+        return {f"{pt}.u": _take(simu._Get_u_n(pt)), f"{pt}.v": _take(simu._Get_v_n(pt)), f"{pt}.a": _take(simu._Get_a_n(pt))}
 
 
 SCENARIOS = {s.name: s for s in (ElasticStatic, ElasticNewmark, ThermalStatic, ThermalParabolic, BeamStatic, BeamNewmark, PhaseFieldHistory,
@@ -480,6 +488,14 @@ def cases(tier, seed):
                     if any(o in getattr(SCENARIOS[name], "skip_ops", ()) for o in seq):
                         continue
                     out.append({"scn": name, "prefix": pre, "ops": list(seq)})
+    if tier == "quick":
+        # folder / reload / restore interplay one step deeper on the two-mesh history (reduced alphabet)
+        sub = ["saveload", "folderA", "folderB", "set0", "setlast"]
+        for name in SCENARIOS:
+            if any(o in getattr(SCENARIOS[name], "skip_ops", ()) for o in PREFIXES["twomesh"]):
+                continue
+            for seq in itertools.product(sub, repeat=3):
+                out.append({"scn": name, "prefix": "twomesh", "ops": list(seq)})
     return out
 
 
@@ -492,7 +508,7 @@ def describe(tier, seed):
                 "Result(name, iter=0) equals the value recorded at save time, Load_Simu(Save()) has the same mesh, tags, count and stored iterations. "
                 "non-trivial = at least two stored iterations or one restore; distinct = fingerprint of all observations",
         "exhaustive": True,
-        "bound": f"depth {depth} after the prefix",
+        "bound": f"depth {depth} after the prefix" + ("; depth 3 over {saveload, folderA, folderB, set0, setlast} after the two-mesh prefix" if tier == "quick" else ""),
         "alphabet": {"ops": len(OPS), "scenarios": len(SCENARIOS), "prefixes": len(PREFIXES)},
         "assumptions": ["Result(name, iter=i) is documented to restore iteration i: treated as restore-then-query",
                         "velocity/acceleration are demanded only for scenarios whose time scheme uses them",
@@ -663,7 +679,7 @@ def _run(case, scn, tmp):
             s = snaps[it]
             for name in s["named"]:
                 try:
-                    r = np.atleast_1d(np.array(simu.Result(name, nodeValues=(name in ("damage", "thermal", "thermalDot", "u", "v", "a", "displacement_norm", "Wdef", "Psi_Crack")), iter=it), dtype=float))
+                    r = np.atleast_1d(_take(simu.Result(name, nodeValues=(name in ("damage", "thermal", "thermalDot", "u", "v", "a", "displacement_norm", "Wdef", "Psi_Crack")), iter=it)))
                 except Exception as err:
                     out.append(viol("result_iter_raises", f"after {done}: Result({name!r}, iter={it}) raised {type(err).__name__}: {err}", result=name, **kk))
                     continue
